@@ -13,6 +13,28 @@ CLAIMED = {
              'every run), float(str) modelled as exact decimal. The regex shapes are executed, not proved equivalent to the HTML grammar.',
         technique='Coq proof over source-translated validators + extracted-model/implementation/spec differential'),
 }
+CLAIMED.update({
+    'C01': dict(cat='proof', design='DESIGN.md §7 C01',
+        text='Executable Gallina model of the whole matcher (Match.v, one function per CSSMatch method) run, extracted, against the '
+             'implementation on every entry point; theorems: document object / non-elements never match; the seven attribute-operator '
+             'regex templates are a Coq function (AttrPat.v) validated AST-for-AST against what the real parser compiles; an independent '
+             'reference semantics on the source AST decides every selected set.',
+        note='Trusted: Coq kernel, T1/T2 translators, bs4view/irdump, extraction, reference semantics (selspec.py). The Spec-equivalence '
+             'theorem for the whole grammar is not proved yet: exactness is decided per case by model+oracle agreement (partial).',
+        technique='Coq matcher model + translation validation of attribute templates + extracted-model/implementation/reference differential'),
+    'C02': dict(cat='proof', design='DESIGN.md §7 C02',
+        text='match_nth\'s bound-adjustment and walk loops are modelled faithfully (Match.nth_core); theorem: closed form of An+B; the loops '
+             'equal the closed form for all |A|,|B| <= 12 and every counted/uncounted sibling pattern of up to 8 preceding nodes (decided '
+             'inside the kernel); beyond the bound: extracted model vs implementation vs closed form on generated sibling lists.',
+        note='The unbounded statement is not proved (partial): bounded kernel computation + correspondence.',
+        technique='Coq model of the loop + bounded-exhaustive kernel proof + differential run'),
+    'C13': dict(cat='proof', design='DESIGN.md §7 C13',
+        text='Theorem: the language-range decision on subtag lists is exactly RFC 4647 3.3.2 (inductive relation), for all lists; the string '
+             'level (split, lower, RE_WILD_STRIP from the regenerated regex) and the language-determination walk are executed by the '
+             'extracted model against the implementation and an independent RFC 4647 / language-of oracle.',
+        note='str.lower modelled as ASCII; meta fallback not judged in XML / nested iframe documents.',
+        technique='Coq proof of filter = RFC 4647 relation + extracted-model/implementation/oracle differential'),
+})
 NOT_YET = {}
 props = [json.loads(l) for l in open(os.path.join(V, 'properties.jsonl'))]
 checks, na = [], []
